@@ -67,6 +67,8 @@ where
     where
         IO: HasConnectionInfo + AsyncRead + AsyncWrite + Send + Unpin + 'static,
     {
+        #[cfg(feature = "verif-hooks")]
+        use crate::verif_hooks::shim as tokio;
         trace!("handshake h2");
         // let span = tracing::info_span!(parent: tracing::Span::none(), "connection", version = ?http::Version::HTTP_2, peer = %stream.info().remote_addr());
         let (sender, conn) = self
@@ -94,6 +96,8 @@ where
     where
         IO: HasConnectionInfo + AsyncRead + AsyncWrite + Send + Unpin + 'static,
     {
+        #[cfg(feature = "verif-hooks")]
+        use crate::verif_hooks::shim as tokio;
         trace!(version = ?http::Version::HTTP_11, peer = %stream.info().remote_addr(), "handshake h1");
         // let span = tracing::info_span!("connection", version = ?http::Version::HTTP_11, peer = %stream.info().remote_addr());
 
